@@ -13,6 +13,7 @@ NOT_DECIDED = "routing-class selection as behaviour, exactly-once per destinatio
 DECIDED += "; R8 source / destination are never swapped on the UDP send path (broadcast and multicast fan-out included) and send_loopback builds Envelope{src, dst} in parameter order; R9 exhaustive scan of MulticastGroups::leave_all"
 DECIDED += "; R10 a datagram parked outside the bounded queue keeps its slot; R11 group membership is evaluated at receipt (recorded finding D12)"
 DECIDED += '; R12 a multicast group is dropped only when its member set is empty, and the broadcast / multicast fan-out of UdpSocket::send visits every address (left only on exhaustion or with an error for the caller)'
+DECIDED += '; R13 the multicast group table is accessed only with keys built by SocketAddr::new(ip, port) (no IPv6 scope id / flow label in the key)'
 ASSUMPTIONS = ["mpsc::Sender::try_send either enqueues or returns the value"]
 
 RFN = "turmoil::host::Udp::receive_from_network"
